@@ -13,7 +13,7 @@
    list (the code today), f = false the one that does not (the code before a234a74).  Which one is /repo
    is decided by Gen/SwitchC09.v, regenerated from buffer.go on every run. *)
 From Coq Require Import List ZArith Lia Bool Arith Permutation.
-From Shm Require Import Gen.Consts Gen.SwitchC09 Model.Accounting Proofs.AccountingProofs.
+From Shm Require Import Gen.Consts Gen.SwitchC09 Model.Accounting Proofs.AccountingProofs Model.AccountingConc Proofs.AccountingConcProofs.
 Import ListNotations.
 Open Scope Z_scope.
 
@@ -55,6 +55,47 @@ Theorem C09_either_variant : forall f n qc h,
   Permutation (free s) (map Z.of_nat (seq 0 n)) /\ length (free s) = n.
 Proof. exact partial_thm. Qed.
 Print Assumptions C09_either_variant.
+
+(* ---- every interleaving of user calls with the two event loops (Model/AccountingConc.v) ----
+   Labels are the critical sections of the code: the event loop pops ONE element and looks the stream up
+   (streamLock), adds it to pendingData (pendingData lock), re-checks the state (late-data path under
+   recycleMux); Stream.close() is six steps (CAS, table delete, pendingData.clear, recvBuf.recycle,
+   sendBuf.recycle, notification); moveTo and the reads are separate; stream OBJECTS (what owners and event
+   loops hold pointers to) are distinct from ids (the server may accept a new object for an id whose old
+   object is still being closed).  Any number of objects/owners; every list of labels is an interleaving. *)
+Theorem C09_inv_interleaved : forall f n qc h,
+  Permutation (call_slots (crun (cinit f n qc) h)) (map Z.of_nat (seq 0 n)).
+Proof. exact cinv_thm. Qed.
+Print Assumptions C09_inv_interleaved.
+
+(* current tree: once every stream object is closed and its close() has returned, both event loops are
+   between elements, nothing is in flight and the application holds nothing, every slot is free -
+   whichever way closes, late data, lookups and re-created streams interleaved before *)
+Theorem C09_interleaved : forall n qc h,
+  let s := crun (cinit sw_recycle_cleans_pinned n qc) h in
+  (cext s = [] /\ cq_srv s = [] /\ cq_cli s = [] /\ loop_c s = LIdle /\ loop_s s = LIdle /\
+   forall o, (o < nobjs s)%nat -> ocpc (objs s o) = 6%nat) ->
+  Permutation (cfree s) (map Z.of_nat (seq 0 n)) /\ length (cfree s) = n.
+Proof. exact cfinished_thm. Qed.
+Print Assumptions C09_interleaved.
+
+(* non-vacuity of the interleaved model: the late-data race.  The server's loop pops the element and
+   finds the stream (PollOne) BEFORE the owner's close() starts; the owner runs CAS, table delete and
+   pendingData.clear; only then the loop adds the data to the closed object (LoopAdd) - the slot sits in
+   pendingData of a closed, unreachable stream - and the re-check (LoopCheck) gives it back.  A second
+   element for the same id then makes the server accept a NEW object while the old one is still closing. *)
+Example C09_late_data_interleaving :
+  let h := [COpen 1%nat; CWrite 0%nat [0] false; CFlush 0%nat [100] 0%nat;
+            PollOne true;                                   (* server loop holds (object 1, data) *)
+            CWrite 0%nat [1] false; CFlush 0%nat [50] 0%nat;  (* a second message is in flight *)
+            CloseStep 1%nat; CloseStep 1%nat; CloseStep 1%nat;   (* CAS, table delete, pendingData.clear *)
+            LoopAdd true] in
+  let s1 := crun (cinit true 4 8) h in
+  let s2 := crun s1 [LoopCheck true; PollOne true; LoopAdd true; LoopCheck true;
+                     CloseStep 1%nat; CloseStep 1%nat; CloseStep 1%nat] in
+  (pslots (opend (objs s1 1)), oclosed (objs s1 1), tbl s1 (key true 1)) = ([0], true, None) /\
+  (length (cfree s2), nobjs s2, tbl s2 (key true 1), pslots (opend (objs s2 2)), ocpc (objs s2 1)) = (3%nat, 3%nat, Some 2%nat, [1], 6%nat).
+Proof. vm_compute. split; reflexivity. Qed.
 
 (* regression, about the OLD code only (recycle() without cleanPinnedList, before a234a74): the same
    statement was false — the pinned-at-Close history leaves slot 0 in the pinned list of a dead stream *)
